@@ -66,10 +66,12 @@ static void dump_ph(sb_t* b, const parquet_page_header_t* h, int with_stats_cont
 }
 
 /* ---- random structures (serialisable domain) --------------------------------------------------------- */
-static int64_t rnd_i64(void) { int c = (int)vrng_below(&R, 8); return c == 0 ? INT64_MIN : c == 1 ? INT64_MAX : c == 2 ? 0 : c == 3 ? -1 : c == 4 ? (int64_t)vrng_below(&R, 300) : (int64_t)vrng_u64(&R); }
-static int32_t rnd_i32(void) { int c = (int)vrng_below(&R, 8); return c == 0 ? INT32_MIN : c == 1 ? INT32_MAX : c == 2 ? 0 : c == 3 ? -1 : c == 4 ? (int32_t)vrng_below(&R, 300) : (int32_t)vrng_u64(&R); }
-static char* rnd_name(carquet_arena_t* a) { size_t L = vrng_chance(&R, 1, 8) ? 0 : vrng_chance(&R, 1, 10) ? 200 + vrng_below(&R, 5000) : 1 + vrng_below(&R, 20); char* s = carquet_arena_alloc_aligned(a, L + 1, 1); for (size_t i = 0; i < L; i++) { uint8_t c = (uint8_t)(1 + vrng_below(&R, 255)); s[i] = (char)c; } s[L] = 0; return s; }
-static uint8_t* rnd_bin(carquet_arena_t* a, int32_t* len) { if (vrng_chance(&R, 1, 4)) { *len = 0; return NULL; } int32_t L = 1 + (int32_t)vrng_below(&R, vrng_chance(&R, 1, 10) ? 3000 : 16); uint8_t* p = carquet_arena_alloc(a, (size_t)L); vrng_bytes(&R, p, (size_t)L); *len = L; return p; }
+/* values whose zig-zag varint sits on a length boundary (zigzag(n) = 2^(7k), i.e. n = 2^(7k-1)) and their neighbours */
+static int64_t varint_edge(int max_k) { int k = 1 + (int)vrng_below(&R, (uint64_t)max_k); int64_t n = (int64_t)1 << (7 * k - 1); if (vrng_chance(&R, 1, 2)) n = -n - 1; return n + (int64_t)vrng_below(&R, 3) - 1; }
+static int64_t rnd_i64(void) { int c = (int)vrng_below(&R, 10); if (c >= 8) return varint_edge(9); return c == 0 ? INT64_MIN : c == 1 ? INT64_MAX : c == 2 ? 0 : c == 3 ? -1 : c == 4 ? (int64_t)vrng_below(&R, 300) : (int64_t)vrng_u64(&R); }
+static int32_t rnd_i32(void) { int c = (int)vrng_below(&R, 10); if (c >= 8) return (int32_t)varint_edge(4); return c == 0 ? INT32_MIN : c == 1 ? INT32_MAX : c == 2 ? 0 : c == 3 ? -1 : c == 4 ? (int32_t)vrng_below(&R, 300) : (int32_t)vrng_u64(&R); }
+static char* rnd_name(carquet_arena_t* a) { static const size_t EDGE[] = {127, 128, 129, 16383, 16384, 16385}; size_t L = vrng_chance(&R, 1, 8) ? 0 : vrng_chance(&R, 1, 25) ? EDGE[vrng_below(&R, 6)] : vrng_chance(&R, 1, 10) ? 200 + vrng_below(&R, 5000) : 1 + vrng_below(&R, 20); char* s = carquet_arena_alloc_aligned(a, L + 1, 1); for (size_t i = 0; i < L; i++) { uint8_t c = (uint8_t)(1 + vrng_below(&R, 255)); s[i] = (char)c; } s[L] = 0; return s; }
+static uint8_t* rnd_bin(carquet_arena_t* a, int32_t* len) { if (vrng_chance(&R, 1, 4)) { *len = 0; return NULL; } int32_t L = 1 + (int32_t)vrng_below(&R, vrng_chance(&R, 1, 10) ? 3000 : 16); if (vrng_chance(&R, 1, 40)) { static const int32_t EDGE[] = {127, 128, 16383, 16384, 16385}; L = EDGE[vrng_below(&R, 5)]; } uint8_t* p = carquet_arena_alloc(a, (size_t)L); vrng_bytes(&R, p, (size_t)L); *len = L; return p; }
 static void rnd_stats(carquet_arena_t* a, parquet_statistics_t* s) { memset(s, 0, sizeof *s); s->max_deprecated = rnd_bin(a, &s->max_deprecated_len); s->min_deprecated = rnd_bin(a, &s->min_deprecated_len); s->max_value = rnd_bin(a, &s->max_value_len); s->min_value = rnd_bin(a, &s->min_value_len);
     s->has_null_count = vrng_chance(&R, 1, 2); s->null_count = rnd_i64(); s->has_distinct_count = vrng_chance(&R, 1, 2); s->distinct_count = rnd_i64(); }
 static void rnd_logical(carquet_logical_type_t* lt) { memset(lt, 0, sizeof *lt); lt->id = (carquet_logical_type_id_t)(1 + vrng_below(&R, 14));
